@@ -4,7 +4,7 @@
 From RM Require Import Model.EncSpec Model.EncObjCarry Model.EncPathSpec Proofs.EncFmt Proofs.EncImage Proofs.EncEdit
      Proofs.EncRound Proofs.EncObjectsRT Proofs.Enc2Samples Proofs.Enc2SampleShape Proofs.MapLevelFacts
      Proofs.MapLevelConcrete Proofs.Enc2Slider Proofs.FramingFacts Proofs.DecodersFacts
-     Proofs.Enc2Framing Proofs.Enc3Framing Proofs.Enc3Timing Proofs.Enc3Objects.
+     Proofs.Enc2Framing Proofs.Enc3Framing Proofs.Enc3Timing Proofs.Enc3Objects Proofs.Enc3Chrono.
 From RM Require Import Model.EncTimingSpec Proofs.ControlPointsFacts Proofs.EncTimingParse Proofs.EncTimingRT
      Proofs.Enc2Timing Proofs.Enc2SvRT.
 From RM Require Import Model.DrvEnc.
@@ -126,6 +126,37 @@ Section Map.
     - exact (decoded_encoding_timing fmt_f64 fmt_f32 fmt_int Hfmt Hlead dist events lines m c ls dist2 m2 Hl Hd H23 Ec Hcls He Hd2).
     - exact (decoded_encoding_objects events lines m c ls dist2 m2 Hl Hd H23 Ec Hcls Hobj He Hd2).
   Qed.
+
+  (* the same with the property's own hypothesis in place of [combo_chain]: the accepted hit-object
+     lines of the input are in chronological order *)
+  Theorem round_trip_chronological events lines m c ls dist2 m2 :
+    Forall no_lf_line lines -> decode_beatmap dist lines = Done m -> d23_class m = false ->
+    StronglySorted Z.le (map start_key (raw_objects lines)) ->
+    enc_control_points dist events m = Done c ->
+    rt_classes (g_mode (hov_general (bmv_ho m))) c = true ->
+    Forall (obj_classes lm (g_mode (hov_general (bmv_ho m)))) (hov_hit_objects (bmv_ho m)) ->
+    encode_lines dist events m = Done ls ->
+    decode_beatmap dist2 (map rline ls) = Done m2 ->
+    let c0 := hov_control_points (bmv_ho m) in
+    let c2 := hov_control_points (bmv_ho m2) in
+    (bmv_version m2 = bmv_version m /\
+     hov_general (bmv_ho m2) = hov_general (bmv_ho (read_back m)) /\
+     bmv_editor m2 = bmv_editor (read_back m) /\
+     bmv_metadata m2 = bmv_metadata (read_back m) /\
+     hov_difficulty (bmv_ho m2) = hov_difficulty (bmv_ho (read_back m)) /\
+     hov_events (bmv_ho m2) = hov_events (bmv_ho (read_back m)) /\
+     bmv_colors m2 = bmv_colors (read_back m)) /\
+    (cp_timing c2 = cp_timing c0 /\
+     (forall t, sv_at c2 t = sv_at c0 t) /\
+     (forall t, kiai_at c2 t = kiai_at c0 t) /\
+     (forall t, scroll_at c2 t = scroll_at c0 t)) /\
+    Forall2 (final_rel lm) (hov_hit_objects (bmv_ho m)) (hov_hit_objects (bmv_ho m2)).
+  Proof.
+    intros Hl Hd H23 Hch Ec Hcls Hobj He Hd2.
+    exact (round_trip_decoded_map events lines m c ls dist2 m2 Hl Hd H23 Ec Hcls
+             (conj Hobj (decoded_combo_chain dist lines m Hd Hch)) He Hd2).
+  Qed.
 End Map.
 
 Print Assumptions round_trip_decoded_map.
+Print Assumptions round_trip_chronological.
